@@ -88,6 +88,102 @@ func preconfirmedQuery(k *checker, g *chaingen.Gen) {
 	if t.Draw("pre.replaced.between.pages", 3) == 0 {
 		pagingAcrossReplacedPreConfirmed(k, g, f, pre)
 	}
+	if len(pre) >= 2 && t.Draw("pre.tip.advances.between.pages", 3) == 0 {
+		pagingFromTipWhileItAdvances(k, f, pre)
+	}
+}
+
+// pagingFromTipWhileItAdvances: a client pages from the pre_confirmed tag (one filter per page); the
+// first page stops inside the tip block P, then the sequencer puts P+1 on top of it and the client
+// follows its token. P did not change: the rest of P's matching events and all of P+1's are delivered.
+func pagingFromTipWhileItAdvances(k *checker, f evFilter, pre []*chaingen.Block) {
+	c, t := k.n.c, k.n.c.T
+	f.from, f.to = blockchain.PreConfirmedFilterSentinel, blockchain.PreConfirmedFilterSentinel
+	mk := func(blocks []*chaingen.Block) preChain {
+		pc := preChain{}
+		for _, b := range blocks {
+			blk := CloneBlock(b.B)
+			blk.Hash = nil
+			pc.items = append(pc.items, &pending.PreConfirmed{Block: blk, StateUpdate: CloneStateUpdate(b.SU)})
+		}
+		return pc
+	}
+	cur := mk(pre[:1])
+	addrs := make([]felt.Address, len(f.addrs))
+	for i := range f.addrs {
+		addrs[i] = felt.Address(f.addrs[i])
+	}
+	page := func(tok *blockchain.ContinuationToken, chunk uint64) ([]flatEvent, blockchain.ContinuationToken) {
+		ef, err := k.n.BC.EventFilter(addrs, f.keys, func() (blockchain.PreConfirmedReader, error) { return cur, nil })
+		if err != nil {
+			k.fail("events_preconfirmed", "EventFilter", "EventFilter(): %v", err)
+		}
+		defer ef.Close()
+		c.Must(ef.SetRangeEndBlockByNumber(blockchain.EventFilterFrom, f.from), "set from")
+		c.Must(ef.SetRangeEndBlockByNumber(blockchain.EventFilterTo, f.to), "set to")
+		evs, next, err := ef.Events(tok, chunk)
+		c.Evals++
+		if err != nil {
+			k.fail("events_preconfirmed", "Events_from_the_tip", "Events(%s) with token %v: %v", f, tok, err)
+		}
+		var out []flatEvent
+		for _, e := range evs {
+			bh := "nil"
+			if e.BlockHash != nil {
+				bh = e.BlockHash.String()
+			}
+			out = append(out, flatEvent{e.BlockNumber, bh, e.TransactionHash.String(), e.TransactionIndex, e.EventIndex, e.From.String(), feltList(e.Keys), feltList(e.Data)})
+		}
+		return out, next
+	}
+	got, next := page(nil, 1)
+	if next.IsEmpty() {
+		return // the tip block holds at most one matching event: nothing to resume
+	}
+	var at, done uint64
+	if _, err := fmt.Sscanf(next.String(), "%d-%d", &at, &done); err != nil {
+		c.Broken("continuation token %q: %v", next.String(), err)
+	}
+	if at != pre[0].B.Number || done == 0 {
+		return
+	}
+	cur = mk(pre[:2])
+	c.Logf("pre-confirmed tip advances to block %d between two pages (token %s, from_block pre_confirmed)", pre[1].B.Number, next.String())
+	c.Fault("preconfirmed_tip_advanced_between_pages")
+	chunk := uint64(1 + t.Draw("tipadv.chunk", 3))
+	tok := &next
+	for pages := 0; ; pages++ {
+		if pages > 4000 {
+			k.fail("events_preconfirmed", "paging_never_ends", "paging from the pre_confirmed tag did not terminate after the tip advanced")
+		}
+		evs, nx := page(tok, chunk)
+		got = append(got, evs...)
+		if nx.IsEmpty() {
+			break
+		}
+		n2 := nx
+		tok = &n2
+	}
+	var want []flatEvent
+	for _, b := range pre[:2] {
+		for ti, r := range b.B.Receipts {
+			for ei, e := range r.Events {
+				if f.matches(e) {
+					want = append(want, flatEvent{b.B.Number, "nil", r.TransactionHash.String(), uint(ti), uint(ei), e.From.String(), feltList(e.Keys), feltList(e.Data)})
+				}
+			}
+		}
+	}
+	if cw, cg := canon(want), canon(got); cw != cg {
+		kind := "mismatch"
+		if len(want) > len(got) {
+			kind = "omitted"
+		} else if len(got) > len(want) {
+			kind = "extra"
+		}
+		k.fail("events_preconfirmed", kind+"_after_the_tip_advanced_between_pages", "query %s from the pre_confirmed tag, first page stopped inside tip block %d (token %d-%d), block %d arrived, paging continued with chunk=%d: the two blocks hold %d matching events, the pages delivered %d: %s", f, at, at, done, pre[1].B.Number, chunk, len(want), len(got), firstDiff(cw, cg))
+	}
+	c.Probe("paged_from_tip_across_its_advance")
 }
 
 // pagingAcrossReplacedPreConfirmed: a client pages through a range that reaches into the
